@@ -1046,3 +1046,34 @@ def eligible_bucket_rules(ctx, rid: str, which: str) -> None:
              f"'{norm(x)}' ({bucket} bucket) lacks the positive test(s) {missing} (guards seen: {atoms[-4:]}): the handler of one timer / service / "
              f"completion is selected for the event of another", x)
     c.expect(rid, f"appends of the '{which}' bucket", n, 1, ce)
+
+
+def task_registry_ownership(ctx, rid: str) -> None:
+    """TaskManager: an owner's entry of the task registry is removed only by the cancellation routines.  The completion
+    callback of one task may discard *that task*; dropping the owner's whole set there makes the owner's other running tasks
+    invisible to cancel_by_owner() (state exit) and cancel_all() (stop)."""
+    c, p = ctx.c, ctx.p
+    tm = p.cls("TaskManager")
+    n = 0
+    for name, f in tm.methods.items():
+        for x in own_nodes(f.node):
+            removes = None
+            if isinstance(x, ast.Call) and isinstance(x.func, ast.Attribute) and x.func.attr in ("pop", "clear", "popitem") and norm(x.func.value).endswith("_tasks_by_owner"):
+                removes = x
+            elif isinstance(x, ast.Delete) and any(isinstance(t, ast.Subscript) and norm(t.value).endswith("_tasks_by_owner") for t in x.targets):
+                removes = x
+            elif isinstance(x, ast.Assign) and any(norm(t).endswith("_tasks_by_owner") for t in x.targets) and name != "__init__":
+                removes = x
+            if removes is None:
+                continue
+            n += 1
+            ok = name.startswith("cancel")
+            c.ob(rid, ok, f, f"task-registry-removal:{name}", f"{f.short} removes an owner's entry as part of cancelling it" if ok else
+                 f"'{stmt_text(removes)}' in {f.short} drops an owner's whole task set outside the cancellation routines: when one of a state's tasks finishes, its "
+                 f"other running tasks (a second invoke, an after-timer) are forgotten - leaving the state or stop() no longer cancels them and their late "
+                 f"results are delivered to a later activation", removes)
+    c.expect(rid, "removals of owner entries in TaskManager", n, 1, tm.methods["cancel_by_owner"])
+    addf = tm.methods["add"]
+    disc = [x for x in own_nodes(addf.node) if isinstance(x, ast.Call) and isinstance(x.func, ast.Attribute) and x.func.attr in ("discard", "remove")]
+    c.ob(rid, bool(disc), addf, "completed-task-discarded", "a completed task is discarded from its owner's set" if disc else
+         "TaskManager.add no longer discards a completed task from the registry", addf.node)
